@@ -992,7 +992,7 @@ class SP(Robot):
             if abs(abs(L[j]) - abs(nLens[j])) > 0.00001 or not self.validate(True):
                 #The rejected root is no starting point: fall back from the pose FK was started at
                 self.IK(top_plate_pos = start_top, bottom_plate_pos = plate_pos, protect = True)
-                return self._FKRaphson(L, plate_pos, protect)
+                return self._FKRaphson(L, plate_pos, protect, solve_fallback = False)
         #If not "Protected" from recursion, call IK.
         if not protect:
             self.IK(protect = True)
@@ -1000,7 +1000,7 @@ class SP(Robot):
 
 
     def _FKRaphson(self, L : 'np.ndarray[float]', 
-            bottom_plate_pos : tm = None, protect : bool = False):
+            bottom_plate_pos : tm = None, protect : bool = False, solve_fallback : bool = True):
         """
         Solve FK using Newton Raphson method.
 
@@ -1079,6 +1079,13 @@ class SP(Robot):
             if self.debug:# pragma: no cover
                 disp("Raphson FK Failed due to: " + str(e))
             self.fail_count+=1
+            if not solve_fallback:
+                #Already the fallback of _FKSolve: give up and reset to the neutral pose
+                self.IK(
+                        top_plate_pos = (bottom_plate_pos_backup @ 
+                        self._nominal_plate_transform), 
+                        bottom_plate_pos = bottom_plate_pos_backup, protect = True)
+                return self.getBottomT(), self.getTopT()
             return self._FKSolve(L, bottom_plate_pos_backup, protect)
 
     """
